@@ -3,6 +3,7 @@ From EP Require Import Base.Bytes Roundtrip.Common Roundtrip.Spec.
 From EP Require Roundtrip.Tcp Roundtrip.Ipv4 Roundtrip.Frag Checksum.Model.
 (* ---- link/net types (extend-c08a) ---- *)
 From EP Require Roundtrip.SpecLinkNet Roundtrip.Macsec Roundtrip.Auth Roundtrip.RawExt Roundtrip.Ipv6.
+From EP Require Roundtrip.Eth Roundtrip.Vlan Roundtrip.Sll Roundtrip.Arp Roundtrip.Exts4 Roundtrip.Exts4Proofs.
 (* ---- end extend-c08a ---- *)
 (* ---- transport/control types (extend-c08b) ---- *)
 From EP Require Roundtrip.Udp Roundtrip.Icmp4 Roundtrip.Icmp6 Roundtrip.Igmp Roundtrip.Grec Roundtrip.Prefix.
@@ -26,7 +27,19 @@ Extraction "m_c08.ml"
   RawExt.rx_new_raw RawExt.rx_set_payload RawExt.rx_payload RawExt.rx_to_bytes RawExt.rx_write
   RawExt.rx_header_len RawExt.rx_from_slice RawExt.rx_read RawExt.rx_eqb RawExt.wf_rx
   Ipv6.ip6_to_bytes Ipv6.ip6_write Ipv6.ip6_header_len Ipv6.ip6_from_slice Ipv6.ip6_read Ipv6.wf_ip6
+  Eth.eth_to_bytes Eth.eth_write Eth.eth_write_to_slice Eth.eth_header_len Eth.eth_from_slice Eth.eth_from_bytes
+  Eth.eth_read Eth.wf_eth
+  Vlan.vl_to_bytes Vlan.vl_write Vlan.vl_header_len Vlan.vl_from_slice Vlan.vl_from_bytes Vlan.vl_read Vlan.wf_vl
+  Sll.sll_to_bytes Sll.sll_write Sll.sll_write_to_slice Sll.sll_header_len Sll.sll_from_slice Sll.sll_from_bytes
+  Sll.sll_read Sll.wf_sll Sll.sll_in_range Sll.sll_protocol_u16 Sll.sll_nonstd_try_from
+  Arp.arp_new Arp.arp_set_hw_addrs Arp.arp_set_protocol_addrs Arp.arp_sender_hw_addr Arp.arp_sender_protocol_addr
+  Arp.arp_target_hw_addr Arp.arp_target_protocol_addr Arp.arp_to_bytes Arp.arp_write Arp.arp_packet_len
+  Arp.arp_from_slice Arp.arp_read Arp.arp_eqb Arp.wf_arp Arp.ae_to_bytes Arp.ae_to_arp_packet Arp.arp_try_eth_ipv4
+  Arp.wf_ae
+  Exts4.x4_write Exts4.x4_header_len Exts4.x4_from_slice Exts4.x4_read Exts4.x4_eqb Exts4.wf_x4 Exts4.x4_linked
+  Exts4.x4_final Exts4Proofs.x4_keep_mask
   SpecLinkNet.macsec_layout SpecLinkNet.ah_layout SpecLinkNet.rawext_layout SpecLinkNet.ipv6_layout
+  SpecLinkNet.eth_layout SpecLinkNet.vlan_layout SpecLinkNet.sll_layout SpecLinkNet.arp_layout
   (* ---- end extend-c08a ---- *)
   (* ---- transport/control types (extend-c08b) ---- *)
   Udp.udp_to_bytes Udp.udp_write Udp.udp_header_len Udp.udp_from_slice Udp.udp_read Udp.wf_udp
